@@ -41,6 +41,7 @@ func (s *SecretScanner) ScanString(data string) []detectors.Result {
 	var results []detectors.Result
 	ctx := context.Background()
 	dataBytes := []byte(data)
+	var dataLower []byte // lower-cased copy of data, made once (not once per keyword of every detector)
 
 	for _, detector := range s.detectors {
 		// Check keywords first for efficiency
@@ -49,7 +50,14 @@ func (s *SecretScanner) ScanString(data string) []detectors.Result {
 		hasKeyword := false
 		for _, kw := range keywords {
 			// Check both exact match and case-insensitive match
-			if strings.Contains(data, kw) || containsIgnoreCase(data, kw) {
+			if strings.Contains(data, kw) {
+				hasKeyword = true
+				break
+			}
+			if dataLower == nil {
+				dataLower = lowerASCII(data)
+			}
+			if bytesContains(dataLower, lowerASCII(kw)) {
 				hasKeyword = true
 				break
 			}
@@ -138,28 +146,21 @@ func ScanForSecrets(dataDir string, opts *Options) ([]SecretFinding, error) {
 
 // containsIgnoreCase checks if s contains substr (case-insensitive)
 func containsIgnoreCase(s, substr string) bool {
-	sLower := make([]byte, len(s))
-	substrLower := make([]byte, len(substr))
+	return bytesContains(lowerASCII(s), lowerASCII(substr))
+}
 
+// lowerASCII returns a copy of s with the ASCII letters lower-cased
+func lowerASCII(s string) []byte {
+	lower := make([]byte, len(s))
 	for i := 0; i < len(s); i++ {
 		c := s[i]
 		if c >= 'A' && c <= 'Z' {
-			sLower[i] = c + 32
+			lower[i] = c + 32
 		} else {
-			sLower[i] = c
+			lower[i] = c
 		}
 	}
-
-	for i := 0; i < len(substr); i++ {
-		c := substr[i]
-		if c >= 'A' && c <= 'Z' {
-			substrLower[i] = c + 32
-		} else {
-			substrLower[i] = c
-		}
-	}
-
-	return bytesContains(sLower, substrLower)
+	return lower
 }
 
 func bytesContains(s, substr []byte) bool {
